@@ -189,3 +189,226 @@ def init_discr(run, F):
             run.violation(r['qname'], 'uninitialised:' + fl['name'], '%s:%s' % (r['file'], fl['line']),
                           'member %s (%s) has no initialiser (no default member initialiser, not set by every constructor) but %s branches on it at %s:%s: a reader that runs before the first assignment sees an indeterminate value' % (
                               fl['name'], t, where[2], where[0], where[1]))
+
+
+# ---------------------------------------------------------------------------------------------
+# R-UAC-RELEASE: after giving up the last-owner election, the operation state is not touched
+
+UAC_EXEMPT = {
+    'unifex::_detach_on_cancel::operation_state::detached_state::request_stop':
+        'the stop callback took exclusive ownership of the parent operation with the preceding CAS; this decrement only arbitrates who frees the detached state',
+}
+
+
+@rule('R-UAC-RELEASE', ['C02'], floor=8)
+def uac_release(run, F):
+    """a party that drops its reference in a last-owner election (`fetch_sub(n) == n`) and is NOT the last owner touches no member of the operation afterwards (on the losing branch, through the end of the entry point, callees inlined): the winner may complete the receiver and have the operation destroyed at any moment"""
+    from .elect import rmw_tests
+    from .dereg import family_roots
+    from ..facts import accesses
+    gcache = {}
+    fams = {f['_family'] for f in F.funcs if any(e['k'] == 'call' and e['callee'].get('name') == 'fetch_sub' for _, _, e in events(f))}
+    for fam in sorted(fams):
+        roots, supers = family_roots(F, fam, gcache)
+        for root in roots:
+            S = supers[id(root)]
+            for n, e in enumerate(S.ev):
+                if e.get('k') != 'term' or e.get('cond') is None: continue
+                f = S.fn[n]; G = S.graph(f)
+                for cn, ce, tn, op, k in rmw_tests(f, G):
+                    if tn != S.gn[n] or ce['callee']['name'] != 'fetch_sub' or op not in ('==', '!='): continue
+                    from .elect import _lit
+                    amt = _lit(ce['args'][0]) if ce.get('args') else None
+                    if amt is None or k != amt: continue
+                    win_label = (op == '==')
+                    lose = [m for m, lab in S.succ.get(n, []) if lab is (not win_label)]
+                    if not lose: continue
+                    member = last_field(ce['callee'].get('base', ''))
+                    run.inst('%s %s' % (S.where(n), root['qname']), 'after losing the election on %s nothing of the operation is touched' % member, key=(root['qname'], f['qname'], member))
+                    if f['qname'] in UAC_EXEMPT: continue
+                    for x in sorted(S.reach(lose[0])):
+                        ex = S.ev[x]
+                        if (ex.get('macro') or '').startswith(('UNIFEX_ASSERT', 'assert')): continue
+                        hit = None
+                        for p, rw in accesses(ex):
+                            comps = [c for c in p.split('.') if c]
+                            if p.startswith(('#', '<', '&')) or comps[-1].endswith('()'): continue
+                            named = [c for c in comps if not c.endswith('()')]
+                            if comps[0] == 'this' and len(named) >= 2 or (len(named) >= 2 and comps[0] != 'this'):
+                                hit = p; break
+                        if hit:
+                            run.violation(S.fn[x]['qname'], 'touch-after-release:' + last_field(hit), S.where(x),
+                                          '%s is accessed after this party dropped its reference on %s without being the last owner (election at %s): the last owner may already have completed the receiver and destroyed the operation' % (hit, member, S.where(n)),
+                                          path=['entry point: %s' % root['qname'], 'election: %s' % S.where(n), 'access: %s' % S.where(x)])
+                            break
+
+
+# ---------------------------------------------------------------------------------------------
+# R-MLT-FLAG: a bool member that tells the destructor whether a manually managed slot is alive
+
+def flag_pairs(F):
+    """[(record, flag field, slot member, polarity)] : the destructor of `record` destructs `slot` iff flag == polarity"""
+    from ..facts import Graph
+    out = []
+    for f in F.funcs:
+        if not f.get('dtor') or not f.get('blocks') or not f.get('record'): continue
+        rec = F.rec_by_q.get(f['record'], [None])[0]
+        if rec is None: continue
+        bools = {fl['name'] for fl in rec['fields'] if fl.get('type') in ('bool', 'const bool')}
+        G = Graph(f)
+        for n, e in G.ev.items():
+            if e.get('k') != 'call' or e['callee'].get('name') not in DES: continue
+            m = target_member(e)
+            for t, te in G.ev.items():
+                if te.get('k') != 'term' or te.get('cond') is None: continue
+                c = te['cond']; pol = True
+                while isinstance(c, dict) and c.get('op') == 'un' and c.get('o') == '!': c = c['e']; pol = not pol
+                if not (isinstance(c, dict) and c.get('op') == 'path' and c['p'].startswith('this.') and c['p'][5:] in bools): continue
+                for s, lab in G.succ.get(t, []):
+                    if lab in (True, False) and n not in G.reach(G.entry, blocked_edges={(t, s)}):
+                        out.append((f['record'], c['p'][5:], m, (lab if pol else (not lab))))
+    return sorted(set(out))
+
+
+def _flag_value(F, rec, flag):
+    r = F.rec_by_q.get(rec, [None])[0]
+    for fl in (r or {}).get('fields', []):
+        if fl['name'] == flag and fl.get('has_init'):
+            return {'#true': True, '#false': False}.get(fl.get('init'))
+    return None
+
+
+@rule('R-MLT-FLAG', ['C02'], floor=6)
+def mlt_flag(run, F):
+    """for every operation whose destructor destroys a manually managed slot only when a bool member says so (`if (started_) inner_.destruct()`), the flag agrees with the slot's actual state at every completion of the receiver and after construction — on every path including exceptional ones (path-sensitive typestate over the inlined supergraph, states handed from start() to the child receivers' handlers); no slot is constructed while alive or destructed while dead"""
+    from .dereg import family_roots
+    gcache = {}
+    pairs = flag_pairs(F)
+    if len(pairs) < 5: raise Broken('only %d flag-discriminated slots found' % len(pairs))
+    for rec, flag, slot, pol in pairs:
+        fam = F.rec_by_q[rec][0]['_family']
+        roots, supers = family_roots(F, fam, gcache)
+        init_flag = _flag_value(F, rec, flag)
+        # initial states: run the constructors
+        ctors = [f for f in F.by_record.get(rec, []) if f.get('ctor') and f.get('blocks')]
+        states0 = set()
+        for c in ctors:
+            try: S = Super(F, c, [fam], graph_cache=gcache, maxdepth=3)
+            except TooBig: continue
+            ex, _, _ = _flag_run(S, {(False, init_flag)}, flag, slot, None, ctor=True)
+            states0 |= ex
+        if not ctors: states0 = {(False, init_flag)}
+        run.inst('%s %s' % (F.rec_by_q[rec][0]['file'], rec), 'flag %s <-> slot %s (destructor destroys when flag == %s)' % (flag, slot, pol), key=(rec, flag, slot))
+        for live, d in states0:
+            if d is not None and live != (d == pol):
+                run.violation(rec, 'flag-mismatch-unstarted:%s/%s' % (flag, slot), '%s:%s' % (F.rec_by_q[rec][0]['file'], F.rec_by_q[rec][0]['line']),
+                              'after construction %s is %s but %s=%s: destroying a never-started operation %s' % (slot, 'alive' if live else 'not alive', flag, d, 'leaks the slot' if live else 'destroys a dead slot'))
+        # fixpoint over roots: entry states of handlers = states observed at child starts
+        starts = [r for r in roots if r['name'] == 'start' and r.get('record') == rec] or [r for r in roots if r['name'] == 'start']
+        hosts, _recv = host_relation(F)
+        fam_hosts = {m: xs for (fm, m), xs in hosts.items() if fm == fam}
+        handoff = collections.defaultdict(set); reported = set()      # receiver class -> states at the start of its operation
+        entry_states = {id(r): set(states0) for r in starts}
+        undecided = False
+        for _ in range(6):
+            changed = False
+            for r in roots:
+                if r in starts: ins = entry_states.get(id(r), set())
+                elif r.get('record') in handoff: ins = set(handoff[r['record']])
+                else: continue
+                if not ins: continue
+                S = supers[id(r)]
+                ex, hs, viol = _flag_run(S, ins, flag, slot, pol)
+                for (node, st) in hs:
+                    m = _started_member(S, node, fam_hosts)
+                    if m is None: undecided = True; continue
+                    for x in fam_hosts[m]:
+                        if st not in handoff[x]: handoff[x].add(st); changed = True
+                for (node, kind, st) in viol:
+                    key = (S.fn[node]['qname'], kind)
+                    if key in reported: continue
+                    reported.add(key)
+                    live, d = st
+                    if kind == 'mismatch':
+                        msg = 'the receiver is completed here with %s %s while %s=%s: the destructor that runs next %s' % (
+                            slot, 'still alive' if live else 'already destroyed', flag, d, 'never destroys it (leak)' if live else 'destroys it a second time')
+                    elif kind == 'double-construct': msg = '%s is constructed while it is already alive on this path' % slot
+                    else: msg = '%s is destructed while it is not alive on this path' % slot
+                    run.violation(S.fn[node]['qname'], 'flag-%s:%s/%s' % (kind, flag, slot), S.where(node), msg, path=['entry point: %s' % r['qname']] + S.path_to(node)[-8:])
+            if not changed: break
+        if undecided:
+            run.inst('%s %s' % (F.rec_by_q[rec][0]['file'], rec), 'a child start could not be attributed to a slot: handlers reached only through it are not decided', nontrivial=False, key=(rec, flag, slot, 'undecided'))
+
+
+def _started_member(S, node, fam_hosts):
+    """which slot does `unifex::start(x)` at `node` start?  (path component naming a host slot, or a local alias bound to one)"""
+    e = S.ev[node]
+    p = (e['args'][0].get('p', '') if e.get('args') else '')
+    for c in p.split('.'):
+        c = c.replace('()', '')
+        if c in fam_hosts: return c
+    head = p.split('.')[0]
+    f = S.fn[node]
+    # alias: auto& x = <slot>.construct_with(...) / activate_union_member_with(<slot>, ...)
+    eid2 = {}
+    for i in range(len(S.ev)):
+        if S.fn[i] is f and S.ev[i].get('k') == 'call' and S.ev[i]['callee'].get('name') in CONS:
+            eid2[S.ev[i].get('eid')] = target_member(S.ev[i])
+    for i in range(len(S.ev)):
+        if S.fn[i] is f and S.ev[i].get('k') == 'decl':
+            for v in S.ev[i]['vars']:
+                if v['var'] == head:
+                    init = v.get('init') or {}
+                    m = eid2.get(init.get('eid'))
+                    if m in fam_hosts: return m
+    return None
+
+
+def _flag_run(S, entry_states, flag, slot, pol, ctor=False):
+    """path-sensitive propagation of (slot alive?, flag value) -> (exit states, hand-off states, violations)"""
+    IN = collections.defaultdict(set)
+    IN[S.entry] |= set(entry_states)
+    work = [S.entry]; viol = []; handoffs = set(); exits = set()
+    exit_nodes = set(S.exits)
+    terms = {n for n, ch, p in S.terminals()}
+    steps = 0
+    while work:
+        steps += 1
+        if steps > 400000: break
+        n = work.pop()
+        e = S.ev[n]
+        for st in list(IN[n]):
+            live, d = st
+            k = e.get('k')
+            before = st
+            if k == 'call':
+                nm = e['callee'].get('name')
+                if nm in CONS and target_member(e) == slot:
+                    # callee lambdas (factory) are inlined before the 'return' node; the construct event itself marks success
+                    if live and not ctor: viol.append((n, 'double-construct', st))
+                    live = True
+                elif nm in DES and target_member(e) == slot:
+                    if not live: viol.append((n, 'destruct-dead', st))
+                    live = False
+                elif e['callee'].get('qname') == 'unifex::start':
+                    handoffs.add((n, (live, d)))
+                if n in terms and pol is not None and d is not None and live != (d == pol):
+                    viol.append((n, 'mismatch', st))
+            elif k == 'assign' and last_field(e['lhs']) == flag and len(e['lhs'].split('.')) <= 2:
+                v = (e.get('rhs') or {}).get('p')
+                d = True if v == '#true' else False if v == '#false' else None
+            elif k == 'init' and e.get('field') == flag:
+                v = (e.get('v') or {}).get('p')
+                d = True if v == '#true' else False if v == '#false' else d
+            after = (live, d)
+            if n in exit_nodes: exits.add(after)
+            for m, lab in S.succ.get(n, []):
+                nxt = before if lab == 'exc' else after
+                if k == 'term' and lab in (True, False) and e.get('cond') is not None:
+                    c = e['cond']; p2 = True
+                    while isinstance(c, dict) and c.get('op') == 'un' and c.get('o') == '!': c = c['e']; p2 = not p2
+                    if isinstance(c, dict) and c.get('op') == 'path' and last_field(c['p']) == flag and nxt[1] is not None:
+                        if (nxt[1] == p2) != lab: continue        # infeasible branch
+                if nxt not in IN[m]:
+                    IN[m].add(nxt); work.append(m)
+    return exits, handoffs, viol
